@@ -217,7 +217,7 @@ class ScatterLoop:
                 j = ctx.fresh_int("sj", lo=0)
                 ctx.assume(j < m)
                 elem = it.get(interp, j)
-                scratch = SymBlock(shape, out0.dtype, (lambda loc: ("<before>", tuple(loc))), "out")
+                scratch = SymBlock(shape, out0.dtype, (lambda loc: ("<before>", tuple(loc))), "out", view_of=out0)
                 fr.locals[self.out_var] = scratch
                 interp.assign(st.target, elem, fr)
                 try:
@@ -252,4 +252,4 @@ class ScatterLoop:
                 return ("<computed>", ())
             return blk.origin(tuple(s.start + (l - d.start) for l, s, d in zip(loc, ssel, dsel)))
 
-        fr.locals[self.out_var] = SymBlock(shape, out0.dtype, origin, "assembled")
+        fr.locals[self.out_var] = SymBlock(shape, out0.dtype, origin, "assembled", view_of=out0)  # the same buffer, filled
